@@ -133,8 +133,11 @@ def index_results(data):
         return res
     stats = {c["harness_id"]: c.get("cbmc_stats", {}) for c in data.get("cbmc", [])}
     props = {c["harness_id"]: c.get("property_details", {}) for c in data.get("property_details", [])}
+    errs = {c["harness_id"]: c for c in data.get("error_details", [])}
     for r in data.get("verification_results", {}).get("results", []):
         hid = r["harness_id"]
+        if errs.get(hid, {}).get("has_errors"):
+            r = dict(r, status="Error:" + str(errs[hid].get("error_type", errs[hid])))
         res[hid] = {"status": r.get("status"), "duration_ms": r.get("duration_ms", 0),
                     "checks": r.get("checks", []), "stats": stats.get(hid, {}),
                     "props": props.get(hid, {})}
@@ -225,12 +228,14 @@ def replay(pid, h):
         try:
             open(gen, "w").write(body)
             for prof in ("dev", "release"):
-                c2 = ["cargo", "kani", "playback", "-Z", "concrete-playback"]
+                c2 = ["cargo", "kani", "playback", "-Z", "concrete-playback", "--", "kani_concrete_playback"]
+                env2 = dict(ENV)
                 if prof == "release":
-                    c2.append("--release")
-                c2 += ["--", "kani_concrete_playback"]
+                    # `cargo kani playback` has no --release: emulate the release profile's semantics
+                    env2.update({"CARGO_PROFILE_DEV_OPT_LEVEL": "3", "CARGO_PROFILE_DEV_DEBUG_ASSERTIONS": "false",
+                                 "CARGO_PROFILE_DEV_OVERFLOW_CHECKS": "false"})
                 try:
-                    q = subprocess.run(c2, cwd=KANI_DIR, env=ENV, capture_output=True, text=True, timeout=900)
+                    q = subprocess.run(c2, cwd=KANI_DIR, env=env2, capture_output=True, text=True, timeout=900)
                     o2 = q.stdout + q.stderr
                     failed = q.returncode != 0 and ("panicked" in o2 or "FAILED" in o2)
                     hang = False
